@@ -227,8 +227,11 @@ fn copy_from_grid_u16_f32() {
 
 // ---------------------------------------------------------------------------------------------------
 // FrameBuffer::from_grids: output dimensions and coordinate map == spec_orientation.
-// Bounded: copy region 3x2 (non-square, so that the transposing orientations are distinguishable), 2 channels: a 3x2 and
-// a 2x2 f32 grid, every region / copy offset in -1..=1, every sample value symbolic (integer channels: from_grids_int).
+// Bounded: copy region 3x2 at the origin (non-square, so that the transposing orientations are distinguishable), 2 float
+// channels: a 3x2 grid covering the copy region and a 1x1 grid whose region sits at (1, 0) (so 5 of its 6 positions are
+// outside and read 0); every sample value symbolic. Symbolic region / copy offsets exceed the 14 GB CBMC budget
+// (measured); the offset arithmetic is therefore exercised only through the fixed (1, 0) shift and the outside rule.
+// Integer channels: from_grids_int.
 // ---------------------------------------------------------------------------------------------------
 const CW: usize = 3;
 const CH: usize = 2;
@@ -241,28 +244,18 @@ fn from_grids_for(o: u32) {
         *g0.get_mut(i % CW, i / CW) = vals0[i];
         i += 1;
     }
-    let mut g1 = jxl_grid::AlignedGrid::<f32>::with_alloc_tracker(2, 2, None).unwrap();
-    // the allocator hands out 32-byte aligned blocks (AlignedGrid's internal offset is then 0; its offset logic
-    // belongs to jxl-grid, not to this contract)
-    kani::assume(g0.buf().as_ptr() as usize % 32 == 0 && g1.buf().as_ptr() as usize % 32 == 0);
-    let vals1: [f32; 4] = kani::any();
-    i = 0;
-    while i < 4 {
-        kani::assume(!vals1[i].is_nan());
-        *g1.get_mut(i % 2, i / 2) = vals1[i];
-        i += 1;
-    }
+    let mut g1 = jxl_grid::AlignedGrid::<f32>::with_alloc_tracker(1, 1, None).unwrap();
+    let vals1: [f32; 1] = kani::any();
+    kani::assume(!vals1[0].is_nan());
+    *g1.get_mut(0, 0) = vals1[0];
     let b0 = ImageBuffer::F32(g0);
     let b1 = ImageBuffer::F32(g1);
     let depth = [D8, D8];
-    let small = |v: i32| -1 <= v && v <= 1;
     let regions = [
-        Region { left: kani::any(), top: kani::any(), width: CW as u32, height: CH as u32 },
-        Region { left: kani::any(), top: kani::any(), width: 2, height: 2 },
+        Region { left: 0, top: 0, width: CW as u32, height: CH as u32 },
+        Region { left: 1, top: 0, width: 1, height: 1 },
     ];
-    let copy = Region { left: kani::any(), top: kani::any(), width: CW as u32, height: CH as u32 };
-    kani::assume(small(regions[0].left) && small(regions[0].top) && small(regions[1].left) && small(regions[1].top));
-    kani::assume(small(copy.left) && small(copy.top));
+    let copy = Region { left: 0, top: 0, width: CW as u32, height: CH as u32 };
     let fb = FrameBuffer::from_grids(&[&b0, &b1], &depth, &regions, copy, o);
 
     let (w, h) = (CW as i64, CH as i64);
@@ -280,7 +273,7 @@ fn from_grids_for(o: u32) {
     // sample (x, y) of the copy region is sample (x + left - region.left, y + top - region.top) of the channel's grid
     let gx = x as i64 + copy.left as i64 - regions[c].left as i64;
     let gy = y as i64 + copy.top as i64 - regions[c].top as i64;
-    let (gw, gh) = if c == 0 { (CW as i64, CH as i64) } else { (2, 2) };
+    let (gw, gh) = if c == 0 { (CW as i64, CH as i64) } else { (1, 1) };
     let expect = if gx < 0 || gy < 0 || gx >= gw || gy >= gh {
         0.0
     } else if c == 0 {
@@ -289,8 +282,8 @@ fn from_grids_for(o: u32) {
         vals1[(gy * gw + gx) as usize]
     };
     assert!(got.to_bits() == expect.to_bits(), "[C15] from_grids: stored sample (x,y) of channel c lands at spec_orientation(x,y), interleaved at index c; 0 outside the channel");
-    kani::cover!(x == 2 && y == 1 && c == 1 && expect != 0.0);
-    kani::cover!(c == 0 && (gx < 0 || gy >= gh));
+    kani::cover!(x == 1 && y == 0 && c == 1 && expect != 0.0);
+    kani::cover!(c == 1 && (gx < 0 || gy >= gh));
     kani::cover!(c == 0 && x == 2 && y == 0 && expect != 0.0);
 }
 macro_rules! fg {
